@@ -11,9 +11,13 @@ decoded RUNE (`readCandidateByteString`: rune in 01-09 / 0B-0C / 0E-FF) the mode
 way (`validBS`: ASCII, or C2/C3 followed by one continuation byte; everything else is a rune above
 0xFF or `RuneError`).
 
-Uninterpreted parts, collected in `Env`: `netip.ParseAddr` followed by `Unmap().Is4()` (`cls`) and
-CRC-32 (`crc`, used by `Foundation()` when there is no override).  Every theorem is for ALL `Env`;
-the driver instantiates `Env` with executable mirrors that the correspondence run samples against Go.
+Uninterpreted parts, collected in `Env`: `netip.ParseAddr` followed by `Unmap().Is4()` (`cls`),
+`netip.ParseAddr` followed by `canonicalAddr` (`canon`: the key that `sameAddressLiteral` and
+`addrEqual` compare; `none` = the string is no IP literal) and CRC-32 (`crc`, used by `Foundation()`
+when there is no override).  Every theorem is for ALL `Env`; the only theorems with a hypothesis on
+`Env` are the ones that name `EnvLaw` (how `cls` is determined by `canon`).  The driver instantiates
+`Env` with executable mirrors that the correspondence run samples against Go (`cand cls`, `cand canon`,
+`cand crc`), and checks `EnvLaw` on what the REAL functions returned for every sampled string.
 
 The parser is written over the token list `splitSp raw` (cut at every single space).  Go keeps a byte
 position instead; `pos >= len(raw)` ("nothing left") is `atEnd` here: no token left, or exactly one
@@ -84,6 +88,11 @@ inductive AddrClass where
 structure Env where
   /-- `netip.ParseAddr` + `Unmap().Is4()` on the address string -/
   cls : Str → AddrClass
+  /-- `netip.ParseAddr` then `canonicalAddr` (addr.go: `Unmap()`, zone kept only on IPv6 link-local)
+  on the address string: `none` = `ParseAddr` returned an error; `some k` = a key with
+  `k₁ = k₂ ↔ canonicalAddr(ip₁) == canonicalAddr(ip₂)` (the driver uses the 4 or 16 address bytes
+  followed, for a zoned link-local address, by `%` and the zone). -/
+  canon : Str → Option Str
   /-- `crc32.ChecksumIEEE` -/
   crc : Str → Nat
 
@@ -425,22 +434,36 @@ def parse (env : Env) (raw : Str) : Except ErrKind Cand :=
 
 /-! ## equality -/
 
-/-- `c.addr()` as far as `addrEqual` looks at it: `none` = nil (unresolved mDNS host); otherwise
-(is `*net.TCPAddr`, IP, port).  The IP is `netip.ParseAddr(address)`, a function of the address
-string, which stands for it. -/
-def resolved (c : Cand) : Option (Bool × Str × Nat) :=
+/-- `addrEqual`'s view of `c.addr()`: `none` = nil (unresolved mDNS host); otherwise (is
+`*net.TCPAddr`, `Is4()` of the IP, the IP, port).  The constructors store
+`ParseAddr(address).AsSlice()` and `.Zone()`; `addrEqual` → `parseAddr` → `ipAddrToNetIP` rebuilds the
+IP with `AddrFromSlice`, `Unmap()` and `addrWithOptionalZone` (zone only on IPv6 link-local), which is
+`canonicalAddr(ParseAddr(address))`, i.e. `env.canon c.address` (`cand canon` samples both routes);
+the network type it derives is UDP/TCP from the kind of `net.Addr` and 4/6 from `Is4()` of that IP. -/
+def resolved (env : Env) (c : Cand) : Option (Bool × AddrClass × Option Str × Nat) :=
   match c.typ with
-  | .host => if isMDNS c.address then none else some (c.net.isTCP, c.address, c.port)
-  | .prflx => some (c.net.isTCP, c.address, c.port)
-  | _ => some (false, c.address, c.port)
+  | .host => if isMDNS c.address then none else some (c.net.isTCP, env.cls c.address, env.canon c.address, c.port)
+  | .prflx => some (c.net.isTCP, env.cls c.address, env.canon c.address, c.port)
+  | _ => some (false, env.cls c.address, env.canon c.address, c.port)
 
-/-- `transportAddressEqual` -/
-def transportAddressEqual (c o : Cand) : Bool :=
-  (match resolved c, resolved o with
+/-- `sameAddressLiteral`: identical strings, or both are IP literals with one canonical address. -/
+def sameAddressLiteral (env : Env) (a b : Str) : Bool :=
+  a == b ||
+    (match env.canon a with
+     | none => false
+     | some ka =>
+       match env.canon b with
+       | none => false
+       | some kb => ka == kb)
+
+/-- `transportAddressEqual`: the test on the resolved addresses (same pointer / both nil, or
+`addrEqual`), then network type, `sameAddressLiteral(Address(), Address())`, port, TCP type. -/
+def transportAddressEqual (env : Env) (c o : Cand) : Bool :=
+  (match resolved env c, resolved env o with
    | none, none => true
    | some a, some b => a == b
    | _, _ => false)
-  && c.net == o.net && c.address == o.address && c.port == o.port && c.tcpType == o.tcpType
+  && c.net == o.net && sameAddressLiteral env c.address o.address && c.port == o.port && c.tcpType == o.tcpType
 
 /-- `CandidateRelatedAddress.Equal` -/
 def relEqual : Option (Str × Nat) → Option (Str × Nat) → Bool
@@ -449,8 +472,8 @@ def relEqual : Option (Str × Nat) → Option (Str × Nat) → Bool
   | _, _ => false
 
 /-- `Equal` -/
-def equal (c o : Cand) : Bool :=
-  transportAddressEqual c o && c.typ == o.typ && relEqual c.related o.related
+def equal (env : Env) (c o : Cand) : Bool :=
+  transportAddressEqual env c o && c.typ == o.typ && relEqual c.related o.related
 
 /-- `extensionsEqual` (with the receiver's `Extensions()` as `own`, i.e. after the F1 repair). -/
 def extensionsEqual (own other : List (Str × Str)) : Bool :=
@@ -462,8 +485,21 @@ def extensionsEqual (own other : List (Str × Str)) : Bool :=
     | _, _ => own.all (fun k => own.count k == other.count k)
 
 /-- `DeepEqual` -/
-def deepEqual (c o : Cand) : Bool :=
-  equal c o && extensionsEqual (extensions c) (extensions o)
+def deepEqual (env : Env) (c o : Cand) : Bool :=
+  equal env c o && extensionsEqual (extensions c) (extensions o)
+
+/-! ## the one law about `Env` that a theorem relies on (`C16_equal_iff`) -/
+
+/-- the address class a canonical key stands for: plain IPv4 keys are the 4 address bytes -/
+def clsOfCanon : Option Str → AddrClass
+  | none => .invalid
+  | some k => if k.length = 4 then .v4 else .v6
+
+/-- `cls` is determined by `canon`: `ParseAddr` fails for both or for neither, and
+`ParseAddr(s).Unmap().Is4()` = "the canonical address is IPv4" (`canonicalAddr` starts with `Unmap()`).
+A hypothesis of `C16_equal_iff` only; the driver checks it on the values the real `netip.ParseAddr`,
+`Unmap().Is4()` and `canonicalAddr` return for every `cand canon` line. -/
+def EnvLaw (env : Env) : Prop := ∀ a, env.cls a = clsOfCanon (env.canon a)
 
 /-! ## well-formedness: the candidates the round-trip theorem is about -/
 
